@@ -2,6 +2,7 @@ package props
 
 import (
 	"bytes"
+	"crypto/sha256"
 	"fmt"
 	"io/ioutil"
 	"math/rand"
@@ -12,6 +13,7 @@ import (
 	"strconv"
 	"strings"
 	"sync"
+	"syscall"
 	"time"
 
 	wt "github.com/hnakamur/whispertool"
@@ -41,7 +43,7 @@ func (c12) Meta() fw.Meta {
 			"an absent series is the same observable as the all-zero empty series (nil vs zero-length), see DESIGN.md section 4 (fix 0902534)",
 			"error texts are not compared, only success/failure and the not-exist classification",
 		},
-		Obligations: []string{"pairs_view", "pairs_view_raw", "pairs_sum", "pairs_files", "pairs_items", "pairs_success_with_data", "pairs_notexist", "pairs_error", "absent_series_pairs", "escaped_name_pairs", "past_window_pairs", "bad_pattern_pairs", "cli_pairs", "cli_copy_pairs", "cli_diff_remote_side", "path_below_regular_file_pairs", "cases_with_concurrent_clients", "listings_repeated_after_tree_change", "cases_in_a_non_utc_zone", "reads_while_writer_holds_file", "servers_with_a_repointed_base_link", "servers_started_inside_the_tree", "listings_from_a_peer_that_breaks_off", "server_socket_writes_delayed", "concurrent_noise_requests_served"},
+		Obligations: []string{"pairs_view", "pairs_view_raw", "pairs_sum", "pairs_files", "pairs_items", "pairs_success_with_data", "pairs_notexist", "pairs_error", "absent_series_pairs", "escaped_name_pairs", "past_window_pairs", "bad_pattern_pairs", "cli_pairs", "cli_copy_pairs", "cli_diff_remote_side", "path_below_regular_file_pairs", "cases_with_concurrent_clients", "listings_repeated_after_tree_change", "cases_in_a_non_utc_zone", "reads_while_writer_holds_file", "servers_with_a_repointed_base_link", "servers_started_inside_the_tree", "listings_from_a_peer_that_breaks_off", "order_sensitive_sums_with_the_first_file_held_remotely", "unprivileged_reads_of_a_read_only_file", "server_socket_writes_delayed", "concurrent_noise_requests_served"},
 		Workers:     8,
 	}
 }
@@ -112,6 +114,10 @@ func (c12) Run(c *fw.Ctx) {
 	u, served, ok := srv(c)
 	if !ok {
 		return
+	}
+	if c.Index%5 == 0 {
+		u += "/" // a base URL written with a trailing slash names the same server (as dir/ names the same directory)
+		c.Count("cases_with_a_trailing_slash_base_url", 1)
 	}
 	// the client's local time zone is an environment condition: remote and local results must not depend on it
 	if z := []*time.Location{nil, time.FixedZone("JST", 9*3600), time.FixedZone("PST", -8*3600)}[c.Index%3]; z != nil {
@@ -394,6 +400,41 @@ func (c12) Run(c *fw.Ctx) {
 			}
 		}
 	})
+	// values that do not add associatively (1, 1e17, -1e17 in name order), summed through the server while the FIRST file
+	// is locked for a moment (so it is read last there) and locally without any hold: the same sum
+	if c.Index%2 == 1 && !c.Violated() && !hung {
+		for i, v := range []float64{1, 1e17, -1e17} {
+			cont := make(slotContent, len(l1.Archs))
+			for ai, a := range l1.Archs {
+				cont[ai] = map[int64]float64{}
+				for ts := model.AlignNext(vnow-a.Ret(), a.Step); ts <= vnow; ts += int64(a.Step) {
+					cont[ai][ts] = v
+				}
+			}
+			writeFixture(filepath.Join(served, caseDir, "fpo", fmt.Sprintf("f%d.wsp", i)), l1, cont, vnow)
+		}
+		item := dotted(filepath.Join(caseDir, "fpo"))
+		var lh, rh *wt.Header
+		var lt, rt wcmd.TimeSeriesList
+		var lerr, rerr error
+		local("sum", fw.J{"item": item}, func() { lh, lt, lerr = wcmd.VerifSumWhisperFile(served, item, "*.wsp", -1, 0, u32(vnow), u32(vnow)) })
+		if hold, err := wt.Open(filepath.Join(served, caseDir, "fpo", "f0.wsp")); err == nil {
+			go func() { time.Sleep(150 * time.Millisecond); hold.Close() }()
+		}
+		remote("sum", fw.J{"item": item}, func() { rh, rt, rerr = wcmd.VerifSumWhisperFile(u, item, "*.wsp", -1, 0, u32(vnow), u32(vnow)) })
+		c.Count("order_sensitive_sums_with_the_first_file_held_remotely", 1)
+		pair("sum", fw.J{"item": item, "values": "1, 1e17, -1e17 in name order", "remote": "first file locked for 150 ms"}, lerr, rerr, func() string {
+			if lh.String() != rh.String() {
+				return "headers differ: " + lh.String() + " vs " + rh.String()
+			}
+			return tslEqual(lt, rt)
+		})
+	}
+	// files the invoking user may read but not open for writing (mode 0444, owner root; reader and server both run as
+	// uid 65534): whatever the directory read says, the URL of a server run by the same user says the same
+	if c.Index%6 == 4 && !c.Violated() && !hung {
+		c12ReadOnly(c, l1, vnow)
+	}
 	// a peer that dies in the middle of a listing: the answer is an error (not "nothing matched", not a shorter list)
 	if c.Index%3 == 2 && !c.Violated() && !hung {
 		proxy := breakingListingProxy(u)
@@ -786,3 +827,79 @@ func c12CLI(c *fw.Ctx, r *rand.Rand, u, served, caseDir string, rels []string, f
 	_ = wt.Sum
 	_ = nowLineRe
 }
+
+// c12ReadOnly compares a directory read and a server read, both done with the rights of uid 65534, of a file that user
+// may only read.
+func c12ReadOnly(c *fw.Ctx, l model.Layout, vnow int64) {
+	r := c.Rng
+	root := filepath.Join(c.TmpDir(), "ro")
+	writeFixture(filepath.Join(root, "d", "f.wsp"), l, genContent(r, l, vnow, 0.6), vnow)
+	os.Chmod(filepath.Join(root, "d", "f.wsp"), 0444)
+	chmodUp(root, filepath.Dir(filepath.Dir(c.Env.Tmp)))
+	os.Chmod(root, 0755)
+	os.Chmod(filepath.Join(root, "d"), 0755)
+	// the binaries must be reachable for that user
+	bindir := filepath.Join(c.TmpDir(), "ro-bin")
+	os.MkdirAll(bindir, 0755)
+	os.Chmod(bindir, 0755)
+	srvBin := filepath.Join(bindir, "whispertool")
+	me := filepath.Join(bindir, "vcheck")
+	exe, _ := os.Executable()
+	for src, dst := range map[string]string{cliBin(c): srvBin, exe: me} {
+		b, err := os.ReadFile(src)
+		if err != nil || os.WriteFile(dst, b, 0755) != nil {
+			return
+		}
+		os.Chmod(dst, 0755)
+	}
+	cmd, u, _, err := startServerIn(srvBin, root, "uid65534:"+root, os.Environ())
+	if err != nil {
+		return
+	}
+	defer stopServer(cmd)
+	run := func(base string) string {
+		ch := exec.Command(me, "child", "c12ro", base, "d/f.wsp", strconv.FormatInt(vnow, 10))
+		ch.SysProcAttr = &syscall.SysProcAttr{Credential: &syscall.Credential{Uid: 65534, Gid: 65534}}
+		out, _ := ch.CombinedOutput()
+		return strings.TrimSpace(string(out))
+	}
+	lo, ro := run(root), run(u)
+	c.Count("unprivileged_reads_of_a_read_only_file", 1)
+	if lo == "" || ro == "" || strings.HasPrefix(lo, "HARNESS") || strings.HasPrefix(ro, "HARNESS") {
+		return
+	}
+	if lo != ro {
+		c.Violationf("remote-local-differ:view", fw.J{"file_mode": "0444 root", "reader_uid": 65534, "directory": truncStr(lo, 300), "server": truncStr(ro, 300)},
+			"a file the user may read but not write: read through the directory gives %q, through a server run by the same user %q", truncStr(lo, 120), truncStr(ro, 120))
+	}
+}
+
+// c12ReadOnlyChild (child role c12ro): one read, classified, printed.
+func c12ReadOnlyChild(args []string) int {
+	if len(args) < 3 {
+		fmt.Println("HARNESS usage")
+		return 0
+	}
+	now, _ := strconv.ParseInt(args[2], 10, 64)
+	_, tl, err := wcmd.VerifReadWhisperFile(args[0], args[1], -1, 0, u32(now), u32(now))
+	if err != nil {
+		if os.IsNotExist(err) {
+			fmt.Println("notexist")
+		} else {
+			fmt.Println("error")
+		}
+		return 0
+	}
+	h := sha256.New()
+	for _, ts := range tl {
+		if ts == nil {
+			h.Write([]byte{0})
+			continue
+		}
+		h.Write(ts.AppendTo(nil))
+	}
+	fmt.Printf("ok %x\n", h.Sum(nil)[:8])
+	return 0
+}
+
+func init() { childRoles["c12ro"] = c12ReadOnlyChild }
